@@ -345,9 +345,9 @@ func HandTexts(kind int) []string {
 			"B4242^" + strings.Repeat("N", 27) + "^2408201X", "B4242^" + strings.Repeat("\u00e9", 26) + "^2408201X", "B4242^" + strings.Repeat("\u00e9", 27) + "^2408201X",
 			"B4242^\xff\xff^2408201X", "B4242^\xff^2408201X", "B4242^A\xc3^2408201X", "B4242^\xc3^2408201X", "B4242^\xe2\x82^2408201X", "B4242^\xe2\x82\xac^2408201X",
 			"B4242^\u00a0\u00a0^2408201X", "B4242^\u00a0A\u00a0^2408201X", "B4242^AB^2408201\u00a0", "B4242^AB^2408201\u2003^\u2003", "B4242^AB^24082X1X",
-			"B4242^AB^24X8201X", "B4242^AB^2408201X\n", "\nB4242^AB^2408201X", "B4242^A\nB^2408201X", "B4242^AB^^201", "B4242^AB^^2", "B4242^AB^2408^"}
+			"B4242^AB^24X8201X", "B4242^AB^0000201X", "B4242^AB^0001201X", "B4242^AB^0012201X", "B4242^AB^9999201X", "B4242^AB^0100201X", "B4242^AB^2408201X\n", "\nB4242^AB^2408201X", "B4242^A\nB^2408201X", "B4242^AB^^201", "B4242^AB^^2", "B4242^AB^2408^"}
 	case 2:
-		return []string{"", "4242=2408201X", "4242D2408201X", "4242d2408201X", "4242^2408201X", "4242=2413201X", "4242=2400201X", "4242=6901201X", "4242=6812201X",
+		return []string{"", "4242=0000201X", "4242=0000201", "4242=0001201X", "4242=0012201X", "4242=9999201X", "4242=0100201X", "4242=2408201X", "4242D2408201X", "4242d2408201X", "4242^2408201X", "4242=2413201X", "4242=2400201X", "4242=6901201X", "4242=6812201X",
 			"4242=2408201 ", "4242=2408201  ", "4242=2408201\t", "4242=2408201\u00a0", "4242=2408201\u3000", "4242=2408201\xa0", "4242=2408201\xc2", "4242=2408201 X ",
 			"4242=2408201?", "4242=2408201X?", "4242=2408201", "4242=240820", "=2408201X", "42424242424242424242=2408201X", "4242424242424242424=2408201X",
 			"4=2408201X", "4242==2408201X", "4242=2408201=", "4242=2408201^", "4242=^^X", "4242=^201X", "4242=2408^X", " 4242=2408201X", "4242 =2408201X",
